@@ -173,6 +173,12 @@ def verify_tpm(
         TPM_ALG_COSE_ALG_MAP[pub_area.name_alg],
     )
 
+    # The Name's algorithm identifier must be pubArea's nameAlg, not whatever the Name itself claims
+    if cert_info.attested.name_alg != pub_area.name_alg:
+        raise InvalidRegistrationResponse(
+            "CertInfo attested name algorithm did not match PubArea nameAlg (TPM)"
+        )
+
     attested_name = b"".join(
         [
             cert_info.attested.name_alg_bytes,
